@@ -246,11 +246,13 @@ def rich_sheet_case(fmt, seed):
 def sheet_cases(tier, seed):
     """Bounded-exhaustive sheet lattice: a 2-column sheet [[h1, h2], [b1, b2]]; (h1, b1) ranges over the full product
     header vocabulary x body vocabulary with column 2 at its baseline; thorough additionally lets (h2, b2) range over
-    marker header x marker body while (h1, b1) ranges over the marker pairs (two confusable columns in one row)."""
+    marker header x marker body while (h1, b1) ranges over the marker pairs (two confusable columns in one row).
+    Both tiers: typed_position_grids (every typed cell kind at every position of small sheets)."""
     out = []
     tk = Tokens(seed)
     t = [tk.new("C") for _ in range(4)]
     name = tk.new("N")
+    t9 = t + [tk.new("C") for _ in range(5)]     # distinct plain tokens for the typed-position grids (<= 3 x 3)
     headers = [["s", t[0]]] + [["s", m] for m in MARKER_STRINGS] + [["s", "value"], ["i", 5], None]
     bodies = [["s", t[1]], ["s", CLASS_NAME], ["s", "QUJD"], ["s", "_type"], ["s", ""]] + copy.deepcopy(TYPED_CELLS)
     for fmt in ("xlsx", "xls", "ods"):
@@ -272,7 +274,43 @@ def sheet_cases(tier, seed):
                 for b in copy.deepcopy(TYPED_CELLS):
                     grid = [[h, ["s", t[2]]], [["s", t[1]], ["s", t[3]]], [b, None]]
                     out.append((fmt, {"fmt": fmt, "doc": ["doc", {}, [["sheet", name, grid]]], "images": {}, "opts": {}}))
+        for grid in typed_position_grids(tier, t9):
+            out.append((fmt, {"fmt": fmt, "doc": ["doc", {}, [["sheet", name, grid]]], "images": {}, "opts": {}}))
     return out
+
+
+SHEET_SHAPES_QUICK = [(1, 1), (1, 2), (2, 1), (2, 2), (3, 1)]
+SHEET_SHAPES_THOROUGH = SHEET_SHAPES_QUICK + [(1, 3), (3, 3)]
+
+
+def typed_position_grids(tier, t):
+    """Typed cell x position: every typed cell kind (TYPED_CELLS without the empty cell) at EVERY position (row, column) of an
+    r x c sheet whose other cells are plain tokens, for the shapes SHEET_SHAPES_* (single cell, single row, single column,
+    2 x 2, 3 x 1: first / inner / last row, first / last column - the first row is what the readers take the column labels
+    from). thorough: also 1 x 3 and 3 x 3, and every ordered pair of typed kinds at two different positions of the 2 x 2 sheet."""
+    kinds = [c for c in TYPED_CELLS if c is not None]
+    tok = lambda i: ["s", t[i % len(t)]]   # noqa: E731
+    grids = []
+    for (nr, nc) in (SHEET_SHAPES_QUICK if tier == "quick" else SHEET_SHAPES_THOROUGH):
+        for r in range(nr):
+            for c in range(nc):
+                for k in kinds:
+                    g = [[tok(i * nc + j) for j in range(nc)] for i in range(nr)]
+                    g[r][c] = copy.deepcopy(k)
+                    grids.append(g)
+    if tier != "quick":
+        pos = [(0, 0), (0, 1), (1, 0), (1, 1)]
+        for p in pos:
+            for q in pos:
+                if p >= q:
+                    continue
+                for k1 in kinds:
+                    for k2 in kinds:
+                        g = [[tok(0), tok(1)], [tok(2), tok(3)]]
+                        g[p[0]][p[1]] = copy.deepcopy(k1)
+                        g[q[0]][q[1]] = copy.deepcopy(k2)
+                        grids.append(g)
+    return grids
 
 
 # ----------------------------------------------------------------------------------------------- decorated texts
